@@ -9,7 +9,7 @@ SPEC = dict(
     tie_vo=['Proofs/LeafTie.vo', 'Proofs/ConstsTie_basic.vo', 'Proofs/ConstsTie_clamp.vo', 'Proofs/LeafTie2_functionAgg.vo', 'Proofs/LeafTie2_linearEval.vo', 'Proofs/LeafTie2_clampTarget.vo', 'Proofs/LeafTie2_rescaleTarget.vo', 'Proofs/LeafTie2_DirectCycle.vo'],
     extra_driver_files=['curves'],
     drivers=[dict(name='ctrl', drv_mod='Drv.CtrlC07', drv_file='Drv/CtrlC07.v', shard=100,
-                  args={'quick': ['n=300', 'modes=recover,stallmax,random,ext,fault'], 'thorough': ['n=2000', 'modes=recover,stallmax,random,ext,fault,stall']}, timeout={'quick': 900, 'thorough': 6000}),
+                  args={'quick': ['n=300', 'modes=recover,stallmax,random,ext,fault,sweep'], 'thorough': ['n=2000', 'modes=recover,stallmax,random,ext,fault,stall,sweep']}, timeout={'quick': 900, 'thorough': 6000}),
              dict(name='ctrllag', drv_mod='Drv.CtrlLagC07', drv_file='Drv/CtrlLagC07.v', shard=100,
                   args={'quick': ['n=160', 'modes=random,const,recover,stallmax,fault'], 'thorough': ['n=1500', 'modes=random,const,recover,stallmax,fault,stall']}, timeout={'quick': 900, 'thorough': 6000}),
              dict(name='curvesmono', drv_mod='Drv.CurvesMono', drv_file='Drv/CurvesMono.v', shard=50,
